@@ -151,9 +151,9 @@ Lemma ensure_service_spec c s c' :
   /\ get_node c (s_peer s) (s_node s) <> None.
 Proof.
   intros Hwf. unfold ensure_service.
-  set (c1 := if is_connect s then _ else c).
+  set (c1 := if topo_applies s then _ else c).
   assert (H1 : nodes c1 = nodes c /\ svcs c1 = svcs c /\ chks c1 = chks c).
-  { subst c1. destruct (is_connect s); repeat split; reflexivity. }
+  { subst c1. destruct (topo_applies s); repeat split; reflexivity. }
   destruct H1 as (N1 & S1 & K1).
   assert (Hwf1 : wf c1) by (unfold wf; rewrite N1, S1, K1; exact Hwf).
   assert (Hg : get_node c1 (s_peer s) (s_node s) = get_node c (s_peer s) (s_node s)).
